@@ -146,12 +146,11 @@ pub fn guard_batch_verify_lengths() {
     let r = <KGuard as Guard<crate::toyf::ToyF, KCS>>::batch_verify(guards.into_iter(), params[..np].iter());
     #[cfg(not(kani))]
     let r = {
-        let r = <KGuard as Guard<crate::toyf::ToyF, KCS>>::batch_verify(guards.into_iter(), params[..np].iter());
-        // level 2: the same call on the real KZG guard type
+        // native: the same call on the real KZG guard type (DualMSM<Bls12>), real public API
+        drop(guards);
         if crate::scenarios::dualmsm_batch_verify_lengths(ng, np) {
             panic!("DualMSM::batch_verify panicked");
         }
-        r
     };
     core::mem::forget(r);
 }
